@@ -193,7 +193,7 @@ TEXT = {
  },
  "C14": {
   "level": "Theorem C14_holds: for every history (any call order, damage, restarts, parameters) the C14 monitor accepts the model trace; "
-           "init_configured: a second init returns false and leaves the whole world unchanged for every world. The same monitor is evaluated on "
+           "init_configured: a second init returns false and leaves the whole world unchanged for every world; the monitor also requires that should_auto_update keeps answering with the first init's setting and that every patch check of a configured process reaches the callbacks registered after the first init. The same monitor is evaluated on "
            "the real library's traces in this run, and model and code are compared field by field after every call.",
   "design_ref": "DESIGN.md section 4, C14",
   "note": "Lean kernel + model/code correspondence sampled by the campaign; restart modelled as reset of the global config.",
